@@ -7,7 +7,7 @@ from typing import Any, Dict, List, Optional
 from . import terms as T
 from . import progdb as _progdb
 from .progdb import _sig_of, AnalysisError, call_name
-from .values import (Columns, DefaultDict, ClassRef, Each, EnumRef, ExtMod, Frame, FuncRef, GroupBy, Obj, PyTuple, Ser, to_term)
+from .values import (Columns, DefaultDict, ClassRef, Each, EnumRef, ExtMod, Frame, FuncRef, GenCall, GroupBy, Obj, PyTuple, Ser, to_term)
 
 _CMP = {"Lt": "<", "LtE": "<=", "Gt": ">", "GtE": ">=", "Eq": "==", "NotEq": "!=", "Is": "==", "IsNot": "!="}
 _CMP_METH = {"lt": "<", "le": "<=", "gt": ">", "ge": ">=", "eq": "==", "ne": "!="}
@@ -434,6 +434,8 @@ class Model:
             if callee.qualname in I.no_inline or depth > I.inline_depth + 2:
                 self.log("call-not-inlined", node, callee=callee.qualname, args=[to_term(x) for x in pos])
                 return ("call", callee.qualname) + tuple(to_term(x) for x in pos) + tuple(("kw", k, to_term(v)) for k, v in sorted(kw.items()))
+            if I.is_generator(callee.node):
+                return GenCall(callee, pos, kw)          # runs when iterated (generator fusion in Interp.st_For / materialise)
             self.log("inline", node, callee=f"{callee.mod.name}:{callee.qualname}")
             return I.call_function(callee, pos, kw, node)
         if isinstance(callee, ClassRef):
